@@ -9,7 +9,8 @@
                     ([exists i, lookup (fst r) registry = Some i /\ snd r < 2 ^ r_bits i];
                     [validb] is its boolean form, [C16_validb_iff]);
     - [ids l]     = [map fst l];
-    - [value_bytes] / [value_from_bytes] : legacy JSON byte format; [new] = registers.New;
+    - [value_bytes] / [value_from_bytes] : legacy JSON byte format ([value_from_bytes_legacy]:
+      ValueFromBytes before 4a8d65e, witness theorems of section 12 only); [new] = registers.New;
       [own_value r] = what r.Value() hands back to New;
     - [json_roundtrip] / [yaml_roundtrip] : marshal then unmarshal a collection
       (results [ROk] / [RErr] / [RPanic]);
@@ -258,14 +259,42 @@ Print Assumptions C16_unmarshal_yaml_marshalled_partial.
     A register value travels as a byte string of ONE length, the register's serialised width:
     the bytes ValueBytes writes, which is what the parser table of ValueFromBytes reads
     ([C16_registry_width_ok]: for each of the 26 entries r_parser = r_ser > 0).  Bytes of any
-    other length denote no value of the register and must be refused; bytes of that length
+    other length denote no value of the register and are refused; bytes of that length
     denote the little-endian number. *)
 
 Theorem C16_registry_width_ok : forallb width_ok registry = true.
 Proof. exact registry_width_ok. Qed.
 Print Assumptions C16_registry_width_ok.
 
-(** too short by any number of bytes, down to none at all (nil, empty): an error *)
+(** a value iff the length is the register's width, and then the little-endian number (cut to
+    the Go type of the register) *)
+Theorem C16_from_bytes_value_iff_width : forall id i b r,
+  lookup id registry = Some i -> Forall (fun x => x < 256) b ->
+  (value_from_bytes id b = ROk r <->
+   List.length b = r_parser i /\ r = (id, le_value b mod 2 ^ r_bits i)).
+Proof. exact from_bytes_value_iff_width. Qed.
+Print Assumptions C16_from_bytes_value_iff_width.
+
+(** the same over all identifiers *)
+Theorem C16_from_bytes_characterised : forall id b r, Forall (fun x => x < 256) b ->
+  (value_from_bytes id b = ROk r <->
+   exists i, lookup id registry = Some i /\ List.length b = r_parser i /\
+             r = (id, le_value b mod 2 ^ r_bits i)).
+Proof. exact from_bytes_characterised. Qed.
+Print Assumptions C16_from_bytes_characterised.
+
+Theorem C16_from_bytes_key_iff : forall b r, Forall (fun x => x < 256) b ->
+  (value_from_bytes key_id b = ROk r <-> List.length b = 32%nat /\ r = (key_id, le_value b)).
+Proof. exact from_bytes_key_iff. Qed.
+Print Assumptions C16_from_bytes_key_iff.
+
+(** the refusing half, without the byte-range hypothesis: any other length ... *)
+Theorem C16_from_bytes_wrong_width_refused : forall id i b, lookup id registry = Some i ->
+  List.length b <> r_parser i -> value_from_bytes id b = RErr.
+Proof. exact from_bytes_wrong_width_refused. Qed.
+Print Assumptions C16_from_bytes_wrong_width_refused.
+
+(** ... too short by any number of bytes, down to none at all (nil, empty) ... *)
 Theorem C16_from_bytes_short_refused : forall id i b, lookup id registry = Some i ->
   (List.length b < r_parser i)%nat -> value_from_bytes id b = RErr.
 Proof. exact from_bytes_short_refused. Qed.
@@ -275,18 +304,24 @@ Theorem C16_from_bytes_empty_refused : forall id, value_from_bytes id [] = RErr.
 Proof. exact from_bytes_empty_refused. Qed.
 Print Assumptions C16_from_bytes_empty_refused.
 
+(** ... or too long *)
+Theorem C16_from_bytes_long_refused : forall id i b, lookup id registry = Some i ->
+  (r_parser i < List.length b)%nat -> value_from_bytes id b = RErr.
+Proof. exact from_bytes_long_refused. Qed.
+Print Assumptions C16_from_bytes_long_refused.
+
 Theorem C16_from_bytes_unknown : forall id b, lookup id registry = None -> value_from_bytes id b = RErr.
 Proof. exact from_bytes_unknown. Qed.
 Print Assumptions C16_from_bytes_unknown.
 
-(** exactly the width: the little-endian number, cut to the Go type of the register ... *)
+(** the accepting half *)
 Theorem C16_from_bytes_own_width : forall id i b, lookup id registry = Some i ->
   List.length b = r_parser i -> Forall (fun x => x < 256) b ->
   value_from_bytes id b = ROk (id, le_value b mod 2 ^ r_bits i).
 Proof. exact from_bytes_own_width. Qed.
 Print Assumptions C16_from_bytes_own_width.
 
-(** ... which cuts nothing for the 25 registers whose Go type is as wide as their serialisation
+(** the Go type cuts nothing for the 25 registers that are as wide as their serialisation
     (ACM_STATUS is the exception: 8 bytes carry a 32-bit register) *)
 Theorem C16_from_bytes_own_width_full : forall id i b, lookup id registry = Some i ->
   List.length b = r_parser i -> Forall (fun x => x < 256) b ->
@@ -299,77 +334,58 @@ Theorem C16_full_width_count : List.length (filter full_width registry) = 25%nat
 Proof. exact full_width_count. Qed.
 Print Assumptions C16_full_width_count.
 
-(** [_partial]: "a value iff the length is the register's width, and then the little-endian
-    number".  The third hypothesis (the input is not LONGER than the width) is missing from the
-    statement as wanted: ValueFromBytes reads its integer from the front and never looks at
-    what follows (finding C16-from-bytes-trailing-bytes-accepted, the two theorems after
-    the next one). *)
-Theorem C16_from_bytes_value_iff_width_partial : forall id i b r,
-  lookup id registry = Some i -> Forall (fun x => x < 256) b ->
-  (List.length b <= r_parser i)%nat ->
-  (value_from_bytes id b = ROk r <->
-   List.length b = r_parser i /\ r = (id, le_value b mod 2 ^ r_bits i)).
-Proof. exact from_bytes_value_iff_width_partial. Qed.
-Print Assumptions C16_from_bytes_value_iff_width_partial.
+(** ** the code before 4a8d65e ([value_from_bytes_legacy], former finding
+    C16-from-bytes-trailing-bytes-accepted): it agreed with the repaired code on every input
+    not longer than the width, ignored on longer ones whatever followed the first [r_parser]
+    bytes, and the former witness (one byte too many for the one-byte TXT.ESTS) was a value
+    then and is an error now *)
+Theorem C16_from_bytes_legacy_agrees : forall id i b, lookup id registry = Some i ->
+  (List.length b <= r_parser i)%nat -> value_from_bytes_legacy id b = value_from_bytes id b.
+Proof. exact from_bytes_legacy_agrees. Qed.
+Print Assumptions C16_from_bytes_legacy_agrees.
 
-(** the key compares its length exactly: the statement holds as wanted *)
-Theorem C16_from_bytes_key_iff : forall b r, Forall (fun x => x < 256) b ->
-  (value_from_bytes key_id b = ROk r <-> List.length b = 32%nat /\ r = (key_id, le_value b)).
-Proof. exact from_bytes_key_iff. Qed.
-Print Assumptions C16_from_bytes_key_iff.
-
-Theorem C16_from_bytes_value_iff_width_refuted :
-  exists id i b r, lookup id registry = Some i /\ Forall (fun x => x < 256) b /\
-    List.length b <> r_parser i /\ value_from_bytes id b = ROk r.
-Proof. exact from_bytes_value_iff_width_refuted. Qed.
-Print Assumptions C16_from_bytes_value_iff_width_refuted.
-
-(** the exact extent of the finding: for every register but the key, whatever follows the
-    first [r_parser] bytes is ignored *)
-Theorem C16_from_bytes_trailing_ignored : forall id i b, lookup id registry = Some i ->
+Theorem C16_from_bytes_legacy_trailing_ignored : forall id i b, lookup id registry = Some i ->
   id <> key_id -> (r_parser i <= List.length b)%nat ->
-  value_from_bytes id b = value_from_bytes id (firstn (r_parser i) b).
-Proof. exact from_bytes_trailing_ignored. Qed.
-Print Assumptions C16_from_bytes_trailing_ignored.
+  value_from_bytes_legacy id b = value_from_bytes id (firstn (r_parser i) b).
+Proof. exact from_bytes_legacy_trailing_ignored. Qed.
+Print Assumptions C16_from_bytes_legacy_trailing_ignored.
 
-(** the faithful characterisation, all lengths: which inputs yield a value, and which value *)
-Theorem C16_from_bytes_characterised : forall id b r, Forall (fun x => x < 256) b ->
-  (value_from_bytes id b = ROk r <->
-   exists i, lookup id registry = Some i /\
-     (if String.eqb id key_id then List.length b = 32%nat else (r_parser i <= List.length b)%nat) /\
-     r = (id, le_value (firstn (r_parser i) b) mod 2 ^ r_bits i)).
-Proof. exact from_bytes_characterised. Qed.
-Print Assumptions C16_from_bytes_characterised.
+Theorem C16_from_bytes_legacy_witness :
+  exists id i b r, lookup id registry = Some i /\ Forall (fun x => x < 256) b /\
+    List.length b <> r_parser i /\ value_from_bytes_legacy id b = ROk r /\
+    value_from_bytes id b = RErr.
+Proof. exact from_bytes_legacy_witness. Qed.
+Print Assumptions C16_from_bytes_legacy_witness.
 
-(** * 13. every transport refuses a value of no or too few bytes, and with it the document *)
+(** * 13. every transport refuses a value of another width, and with it the document *)
 
 Theorem C16_json_doc_bad_entry_refused : forall es,
   Exists (fun e => value_from_bytes (fst e) (snd e) = RErr) es -> json_doc es = RErr.
 Proof. exact json_doc_bad_entry_refused. Qed.
 Print Assumptions C16_json_doc_bad_entry_refused.
 
-(** a legacy JSON document holding, anywhere, an entry shorter than the register's width
-    ("value":"", null and a missing value field are the entry of no bytes) is refused and the
-    variable keeps what it held *)
-Theorem C16_json_doc_short_entry_refused : forall dst es id i b, In (id, b) es ->
-  lookup id registry = Some i -> (List.length b < r_parser i)%nat ->
+(** a legacy JSON document holding, anywhere, an entry of another length than the register's
+    width ("value":"", null and a missing value field are the entry of no bytes) is refused
+    and the variable keeps what it held *)
+Theorem C16_json_doc_wrong_width_entry_refused : forall dst es id i b, In (id, b) es ->
+  lookup id registry = Some i -> List.length b <> r_parser i ->
   json_doc es = RErr /\ unmarshal dst (DJson es) = Some (dst, false).
-Proof. exact json_doc_short_entry_refused. Qed.
-Print Assumptions C16_json_doc_short_entry_refused.
+Proof. exact json_doc_wrong_width_entry_refused. Qed.
+Print Assumptions C16_json_doc_wrong_width_entry_refused.
 
 Theorem C16_yaml_doc_bad_entry_refused : forall es,
   Exists (fun e => yaml_entry (fst e) (snd e) = RErr) es -> yaml_doc es = RErr.
 Proof. exact yaml_doc_bad_entry_refused. Qed.
 Print Assumptions C16_yaml_doc_bad_entry_refused.
 
-(** the obsolete "base64:" value: text that is no base64, or base64 of fewer bytes than the
-    register's width *)
-Theorem C16_b64_entry_short_refused : forall id t,
+(** the obsolete "base64:" value: text that is no base64, or base64 of another number of bytes
+    than the register's width *)
+Theorem C16_b64_entry_wrong_width_refused : forall id t,
   (b64_dec t = None \/
-   exists b i, b64_dec t = Some b /\ lookup id registry = Some i /\ (List.length b < r_parser i)%nat) ->
+   exists b i, b64_dec t = Some b /\ lookup id registry = Some i /\ List.length b <> r_parser i) ->
   yaml_entry id (YStr (pfx_b64 ++ t)) = RErr.
-Proof. exact b64_entry_short_refused. Qed.
-Print Assumptions C16_b64_entry_short_refused.
+Proof. exact b64_entry_wrong_width_refused. Qed.
+Print Assumptions C16_b64_entry_wrong_width_refused.
 
 (** "base64:" and "0x" with nothing behind, for every identifier *)
 Theorem C16_b64_entry_empty_refused : forall id, yaml_entry id (YStr pfx_b64) = RErr.
@@ -437,16 +453,20 @@ Example C16_ex_seq :
           ([("TXT.STS", 0x0807060504030201%N)], false);
           ([("TXT.ESTS", 0xff%N); ("ACM_STATUS", 0x12%N)], true)].
 Proof. exact ex_seq. Qed.
-(** widths: no bytes, too few, exactly four, one too many (accepted: the finding); the key one
-    byte short and one byte long; a legacy JSON document with an entry of no bytes; the
-    empty "base64:" / "0x" values; base64 of the four bytes of the Go type of ACM_STATUS *)
+(** widths: no bytes, too few, exactly four, one too many (refused; a value before 4a8d65e);
+    the key one byte short and one byte long; legacy JSON documents with an entry of no bytes
+    and of one byte too many; the empty "base64:" / "0x" values; base64 of two bytes for the
+    one-byte register and of the four bytes of the Go type of ACM_STATUS *)
 Example C16_ex_widths :
   value_from_bytes "TXT.ERRORCODE" [] = RErr /\
   value_from_bytes "TXT.ERRORCODE" [1; 0; 0]%N = RErr /\
   value_from_bytes "TXT.ERRORCODE" [1; 0; 0; 0xc0]%N = ROk ("TXT.ERRORCODE", 0xc0000001%N) /\
-  value_from_bytes "TXT.ERRORCODE" [1; 0; 0; 0xc0; 7]%N = ROk ("TXT.ERRORCODE", 0xc0000001%N) /\
+  value_from_bytes "TXT.ERRORCODE" [1; 0; 0; 0xc0; 7]%N = RErr /\
+  value_from_bytes_legacy "TXT.ERRORCODE" [1; 0; 0; 0xc0; 7]%N = ROk ("TXT.ERRORCODE", 0xc0000001%N) /\
   value_from_bytes key_id (repeat 1%N 31) = RErr /\ value_from_bytes key_id (repeat 1%N 33) = RErr /\
   json_doc [("ACM_POLICY_STATUS", [0x42; 0; 0; 0; 0; 0; 0; 0]%N); ("TXT.ERRORCODE", [])] = RErr /\
+  json_doc [("TXT.ESTS", [1; 255]%N)] = RErr /\
   yaml_entry "TXT.ESTS" (YStr "base64:") = RErr /\ yaml_entry "TXT.ESTS" (YStr "0x") = RErr /\
+  yaml_entry "TXT.ESTS" (YStr "base64:Af8=") = RErr /\
   yaml_entry "ACM_STATUS" (YStr "base64:EHCFTw==") = RErr.
 Proof. exact ex_widths. Qed.
